@@ -7,6 +7,8 @@
 package main
 
 import (
+	"os/signal"
+	"syscall"
 	"encoding/json"
 	"flag"
 	"fmt"
@@ -27,6 +29,13 @@ var (
 )
 
 func main() {
+	sig := make(chan os.Signal, 1)
+	signal.Notify(sig, syscall.SIGTERM, syscall.SIGINT, syscall.SIGHUP)
+	go func() {
+		<-sig
+		eng.KillSolvers()
+		os.Exit(143)
+	}()
 	os.Setenv("PATH", eng.GoBin+":"+os.Getenv("PATH"))
 	os.Setenv("GOFLAGS", "-mod=mod")
 	os.Setenv("GOPROXY", "off")
